@@ -961,7 +961,15 @@ impl JitCompiler {
                             if let Some(helper) = helpers.get(&(insn.imm as u32)) {
                                 // We reserve RCX for shifts
                                 self.emit_mov(mem, R9, RCX);
+                                // R10 (pointer to mem for LD_ABS/LD_IND) is caller-saved in the
+                                // System V ABI: preserve it across the helper. The push also makes
+                                // the stack 16-byte aligned at the call, as the ABI requires: the
+                                // stack pointer is congruent to 8 modulo 16 in every eBPF function
+                                // (prologue and local calls each push a multiple of 16 bytes plus
+                                // one return address).
+                                self.emit_push(mem, R10);
                                 self.emit_call(mem, *helper as usize);
+                                self.emit_pop(mem, R10);
                             } else {
                                 Err(Error::other(
                                     format!(
